@@ -191,6 +191,10 @@ def main(ck, tier, w):
         if i % 6 == 4:
             # "any length": keys far longer than Bitcoin Core's 8 bytes - 4097, 5000, 70 000 bytes (longer than the read buffer)
             key = rng.randbytes([4097, 5000, 70000, 4096, 65][(i // 6) % 5])
+        if i % 6 == 0:
+            # keys that repeat a shorter pattern without the pattern dividing the key length (their shortest period is not a period
+            # of the stream they generate)
+            key = [bytes.fromhex('aabbaabbaa'), bytes.fromhex('09080709080709'), b'ab' * 4 + b'a', b'xyz' * 21 + b'x', bytes.fromhex('0000010000010000')][(i // 6) % 5]
         if i % 6 == 2:
             # keys whose bytes happen to be printable text (hex digits, a trailing newline, blanks): the file holds the key itself
             key = [b'0123456789abcdef', b'DEADBEEF00c0ffee\n', b'4f1d09c2e8a07b35', b'00000000', b' ', b'\n', b'0x1234567890abcdef', b'AAAAAAAAAAA=', b'key\r\n'][(i // 6) % 9]
